@@ -8,6 +8,7 @@ SPECIALS = {
     "C-[": "<ESC>",
     "C-^": "<Ctrl-6>",
     "C-_": "<Ctrl-/>",
+    "C-i": "<TAB>",
 }
 
 
